@@ -6,6 +6,7 @@
   routed statement, the unroutable error, or the TypeError of the reference semantics —
   never a SyntaxError, a NameError or `None`.
 -/
+import Pyab.Properties.C08_roundtrip
 import Pyab.Generated.Config
 import Pyab.Spec.Semantics
 import Pyab.Spec.Run
